@@ -378,6 +378,8 @@ def _gen_plan(family, rng, tier):
             fixed = rng.choice([('b',), ('d',), ('b', 'd'), ('a',), ('a', 'b', 'd'), ('a', 'b'), ('a', 'd')])
         msg, dtruth = write_definition(rng, dv, rng.choice([3, 3, 4]), b_entries, d_entries, a_entries, fixed=fixed)
         items.append({'kind': 'def', 'hex': msg.hex(), 'version': dv, 'fixed_parts': dtruth['fixed_parts'],
+                      'b_full': [list(e) for e in b_entries], 'd_full': [[d[0], d[1], list(d[2])] for d in d_entries],
+                      'forms_added': sorted(nforms - ncep_forms),
                       'b': [[e[0], e[2], e[3], e[4], e[5]] for e in b_entries],
                       'd': [[d[0], d[2]] for d in d_entries], 'redefined': redefined,
                       'cached_before': sorted(cached)})
@@ -410,6 +412,33 @@ def _gen_plan(family, rng, tier):
                     items.append({'kind': 'bad', 'hex': bad.hex(), 'version': v})
             items.append(it)
             cached.add(v)
+    # an EARLIER definition message arrives again, octet for octet (NCEP files repeat their dictionary
+    # messages): its entries override again whatever a later message had re-defined
+    defs = [it for it in items if it['kind'] == 'def']
+    if sub == 'c20-redef' and len(defs) >= 2 and rng.random() < 0.4:
+        a = rng.choice(defs[:-1])
+        again = dict((k, v) for k, v in a.items())
+        again['resent'] = True
+        again['cached_before'] = sorted(cached)
+        items.append(again)
+        for e in a['b_full']:
+            reg_b[e[0]] = (e[1].rstrip(), e[2], e[3], e[4], e[5])
+        for d in a['d_full']:
+            reg_d[d[0]] = list(d[2])
+        ncep_forms = set(ncep_forms) | set(a['forms_added'])
+        changed = set(e[0] for e in a['b_full']) | set(d[0] for d in a['d_full'])
+        for _ in range(rng.randint(1, 2)):
+            reuse = rng.choice(prev_tops) if (prev_tops and rng.random() < 0.7) else None
+            it = gen_data_message(rng, reuse[1] if reuse else rng.choice(vs), reg_b, reg_d, ncep_forms,
+                                  top=reuse[0] if reuse else None)
+            it['kind'] = 'new'
+            it['reused_template'] = bool(reuse)
+            it['defined'] = sorted(reg_b)
+            it['after_resent_definition'] = True
+            it['uses_redefined'] = bool(changed & (set(int(x) for x in it['truth']['infos']) |
+                                                   _reach(it['top'], reg_d) | set(it['top'])))
+            it['after_cached'] = False
+            items.append(it)
     seps = [streamsim.gen_separator(rng)[1].hex() if rng.random() < 0.5 else '' for _ in range(len(items) + 1)]
     knobs = {'coe': coe, 'compiled': rng.choice([1, 2, 8, 8]) if family == 'c08-def' else None,
              'filecheck': family != 'c08-def' and rng.random() < 0.25, 'sub': sub + ('-fixed' if fixed_layout else ''),
